@@ -39,7 +39,10 @@ def observe(kind, r):
 number = st.one_of(st.integers(0, 60).map(str), st.integers(0, 9999).map(str), S.uni(0, 10**10 - 1).map(str),
                    st.sampled_from(["0", "00", "007", "4294967295", "4294967296", "8247146360", "999999999", "1000000000", "2147483648"]))
 fraction = st.one_of(st.text("0123456789", min_size=1, max_size=9), st.sampled_from(["5", "25", "43", "0000005", "0000015", "9999995", "999999999", "0000001"]),
-                     st.text("0123456789", min_size=10, max_size=30))
+                     st.text("0123456789", min_size=10, max_size=30),
+                     # exact half a microsecond (on S) followed by zeros and one late non-zero digit: only exact arithmetic rounds it up
+                     st.builds(lambda pre, zeros, tail: pre + "0" * zeros + tail, st.sampled_from(["0000005", "0000015", "1234565", "9999995"]), st.integers(10, 40),
+                               st.sampled_from(["1", "9", "", "0"])))
 
 
 @st.composite
@@ -131,8 +134,9 @@ class Durations(Sub):
 
 @st.composite
 def invalid_case(draw):
-    k = draw(st.sampled_from(["order-date", "order-time", "frac-year", "frac-month", "repeated-T", "order-mixed"]))
-    a, b, c = (str(draw(st.integers(1, 99))) for _ in range(3))
+    k = draw(st.sampled_from(["order-date", "order-time", "frac-year", "frac-month", "repeated-T", "order-mixed", "repeated-unit", "weeks-mixed"]))
+    # the numbers include ZERO (an order check that looks at the values instead of the designators is blind to it) and numbers whose sum wraps 32 bits
+    a, b, c = (draw(st.integers(0, 99).map(str) | st.sampled_from(["0", "00", "4294967295", "2147483648"])) for _ in range(3))
     fr = draw(st.text("0123456789", min_size=1, max_size=4))
     sep = draw(st.sampled_from(".,"))
     if k == "order-date":
@@ -145,6 +149,10 @@ def invalid_case(draw):
         s = draw(st.sampled_from([f"P{a}{sep}{fr}M", f"P{a}Y{b}{sep}{fr}M", f"P{a}{sep}{fr}MT{b}H", f"P{a}{sep}{fr}M{b}D"]))
     elif k == "repeated-T":
         s = draw(st.sampled_from([f"PT{a}HT{b}M", f"P{a}DTT{b}H", f"PT{a}HT{b}S"]))
+    elif k == "repeated-unit":
+        s = draw(st.sampled_from([f"P{a}D{b}D", f"P{a}Y{b}Y", f"P{a}M{b}M", f"PT{a}H{b}H", f"PT{a}M{b}M", f"PT{a}S{b}S", f"P{a}Y{b}M{c}M", f"P{a}DT{b}H{c}H", f"P{a}W{b}W"]))
+    elif k == "weeks-mixed":
+        s = draw(st.sampled_from([f"P{a}W{b}D", f"P{a}WT{b}H", f"P{a}Y{b}W", f"P{a}D{b}W", f"P{a}M{b}W", f"P{a}WT{b}S"]))
     else:
         s = draw(st.sampled_from([f"P{a}DT{b}H{c}D", f"PT{a}H{b}Y", f"PT{a}H{b}D", f"P{a}Y{b}H"]))
     return {"kind": k, "s": s}
@@ -155,7 +163,7 @@ class InvalidDurations(Sub):
     name = "invalid_durations"
     n = {"quick": 3000, "thorough": 60000}
     shards = {"quick": 1, "thorough": 4}
-    rule = "out-of-order designators, fractional years/months, repeated T: ValueError from both parsers and parse(); every case non-trivial"
+    rule = "out-of-order or repeated designators (also with zero values and 32-bit-wrapping sums), weeks mixed with other units, fractional years/months, repeated T: ValueError from both parsers and parse(); every case non-trivial"
 
     def strategy(self, ctx):
         return invalid_case()
@@ -302,7 +310,8 @@ class ZoneIntervals(Sub):
             tr = T.transitions(z)
             t = tr[draw(st.integers(0, len(tr) - 1))][0]
             u = S.clamp_u(t * US + draw(S.uni(-3 * 86400 * US, 3 * 86400 * US)))
-            return {"zone": z, "u": u, "form": draw(st.sampled_from(["start/duration", "duration/end"])),
+            return {"zone": z, "u": u, "form": draw(st.sampled_from(["start/duration", "duration/end", "start/end"])), "w": draw(S.wall_near_transition(z)),
+                    "span_s": draw(st.sampled_from([0, 1800, 3600, 7200, 86400]) | st.integers(0, 3 * 86400)),
                     "dur": {"y": draw(st.sampled_from([0, 0, 0, 1])), "mo": draw(st.sampled_from([0, 0, 0, 1, 6])), "d": draw(st.sampled_from([0, 0, 1, 2, 7])),
                             "h": draw(st.sampled_from([0, 1, 12, 23, 24, 25, 36, 47, 48, 72]) | st.integers(0, 100)), "mi": draw(st.sampled_from([0, 0, 30, 1440, 1500]) | st.integers(0, 200)),
                             "s": draw(st.sampled_from([0, 0, 86400, 90000]) | st.integers(0, 5000)), "frac": draw(st.sampled_from(["", "", "5", "123456"]))},
@@ -311,6 +320,22 @@ class ZoneIntervals(Sub):
 
     def check(self, case, ctx):
         z, c, form = case["zone"], case["dur"], case["form"]
+        if form == "start/end":
+            # two endpoints written without designator, parsed with tz=<zone>, the wall times anywhere around an offset change - also skipped or repeated
+            # ones: each endpoint is what the same text denotes when parsed on its own (the interval must not resolve it another way)
+            w1 = T.wall_from_us(S.clamp_u(case["w"]))
+            w2 = w1 + D.timedelta(seconds=case["span_s"])
+            if not (1900 <= w1.year <= 2100):
+                raise Skip("outside 1900..2100")
+            ta, tb = iso(w1, None, False), iso(w2, None, False)
+            r = pendulum.parse(ta + "/" + tb, tz=z)
+            req(isinstance(r, Interval), "not an Interval", got=repr(r))
+            for nm, got, text in (("start", r.start, ta), ("end", r.end, tb)):
+                alone = pendulum.parse(text, tz=z)
+                req(T.us(got) == T.us(alone) and fields(got) == fields(alone) and got.utcoffset() == alone.utcoffset() and got.timezone_name == z,
+                    f"parse({ta + '/' + tb!r}, tz={z!r}): the {nm} is not what {text!r} denotes on its own", got=str(got), alone=str(alone))
+            k1, k2 = T.classify_wall(T.naive_us(w1), z)[0], T.classify_wall(T.naive_us(w2), z)[0]
+            return k1 != "unique" or k2 != "unique", "start/end:" + k1 + "/" + k2
         loc = T.render(case["u"], z)
         wall = D.datetime(*T.fields(loc))
         kind, pre, _ = T.classify_wall(T.naive_us(wall), z)
